@@ -36,8 +36,6 @@ ELEMENT = [
         let ghost w0 = w@;'''),
     ins(A.text('let ty = match'), '''let ghost w1 = w@;
         ''', where='before'),
-    rep(A.text('None => self'), 'None => match self', tag='T14b'),
-    rep(A.span('.map_err(|e|', '?'), O.MAP_ERR_TAIL, tag='T14b', note='map_err(..)? is a match returning the converted error'),
     # T18: the tail expression is named so that a proof block can follow it
     ins(A.text('write!( w,'), 'let res__ = ', where='before'),
     ins(A.body_end(), ''';
@@ -59,7 +57,7 @@ UNIT = Unit(
     name='opt_scala', props=['C04', 'C07'], pre_verus=O.PRE_VERUS, spec_files=['std_slices.rs', 'typexpr.rs', 'txt.rs', 'optmark.rs'], prelude=PRELUDE,
     items=O.base_items('Scala', SRC) + [
         Item('write_element', SRC, ['impl Scala {', 'fn write_element'], ELEMENT, wrap=('impl Scala {\n', '\n}\n'),
-             auto=('fmt', 'strlit', 'then_some')),
+             auto=('fmt', 'strlit', 'then_some', 'map_err_q')),
     ],
     functions=['Scala::write_element', 'RustType::is_optional', 'RustType::is_double_optional'],
     trusted=O.TRUSTED + ['T18: the tail expression `write!(..)` is bound to a name so that a proof block can follow it',
